@@ -5,8 +5,16 @@ use crate::model::*;
 pub fn render_ty(ty: &TyExpr, m: &Module) -> String {
     match ty {
         TyExpr::Prim(p) => p.to_string(),
-        TyExpr::Option(t) => format!("Option<{}>", render_ty(t, m)),
-        TyExpr::Vec(t) => format!("Vec<{}>", render_ty(t, m)),
+        // (now and then by their full paths: a type parameter that only occurs inside a qualified
+        // path must still be found by the derive)
+        TyExpr::Option(t) => {
+            let inner = render_ty(t, m);
+            if inner.len() % 4 == 1 { format!("std::option::Option<{inner}>") } else { format!("Option<{inner}>") }
+        }
+        TyExpr::Vec(t) => {
+            let inner = render_ty(t, m);
+            if inner.len() % 4 == 1 { format!("std::vec::Vec<{inner}>") } else { format!("Vec<{inner}>") }
+        }
         TyExpr::Array(t, n) => format!("[{}; {}]", render_ty(t, m), n),
         TyExpr::Tuple(ts) => format!("({},)", ts.iter().map(|t| render_ty(t, m)).collect::<Vec<_>>().join(", ")),
         TyExpr::Map(k, v, btree) => {
